@@ -2,6 +2,7 @@
 import N2k.Driver.Util
 import N2k.Gen.Straight
 import N2k.Model.Fast
+import N2k.Model.FastKeyed
 import N2k.Model.Wire
 import N2k.Model.Serial
 namespace N2k.Driver
@@ -17,6 +18,30 @@ def showFastOut : Fast.Out → String
   | .stored => "stored"
   | .complete p => s!"complete:{bytesToHex p}"
   | .error => "error"
+
+def showRec : Option Fast.Rec → String
+  | none => "norec"
+  | some x => s!"rec:{x.len}:{x.seq}:{x.stored}:{x.frames.length}"
+
+def showFastObs : Fast.Out → String
+  | .ignored => "none"
+  | .stored => "none"
+  | .complete p => s!"complete:{bytesToHex p}"
+  | .error => "error"
+
+/-- per step: observable result and the record left behind (as `Fast.run` threads it) -/
+def fastTrace (r : Option Fast.Rec) : List (List Nat) → List String
+  | [] => []
+  | f :: fs =>
+    let (r1, o) := Fast.step r f
+    let r2 := match o with | .complete _ => none | _ => r1
+    s!"{showFastObs o}/{showRec r2}" :: fastTrace r2 fs
+
+def fastTraceK (t : Fast.Table) : List (Fast.Key × List Nat) → List String
+  | [] => []
+  | (k, f) :: h =>
+    let (t1, o) := Fast.stepK t k f
+    s!"{showFastObs o}/{showRec (Fast.lookup t1 k)}/{t1.length}" :: fastTraceK t1 h
 
 def allSomeL {α} : List (Option α) → Option (List α)
   | [] => some []
@@ -40,11 +65,14 @@ def handleBasic (toks : List String) : Option String :=
     pure s!"{s'} {",".intercalate (fs.map bytesToHex)}"
   | ["fast.run", fs] => do
     let frames ← allSomeL ((splitList fs ",").map hexToBytes)
-    let (r, outs) := Fast.run none frames
-    let rs := match r with
-      | none => "norec"
-      | some x => s!"rec:{x.len}:{x.seq}:{x.stored}:{x.frames.length}"
-    pure s!"{rs} {",".intercalate (outs.map showFastOut)}"
+    pure (",".intercalate (fastTrace none frames))
+  | ["fast.runk", h] => do
+    -- history of key:framehex items; key is any token without ':' or ','
+    let items ← allSomeL ((splitList h ",").map fun it =>
+      match it.splitOn ":" with
+      | [k, f] => (hexToBytes f).bind fun fb => (k.toNat?).map fun kn => (((kn, 0, 0) : Fast.Key), fb)
+      | _ => none)
+    pure (",".intercalate (fastTraceK [] items))
   | ["wire.enc.ebyte", id, h] => do pure (bytesToHex (Wire.encodeEbyte (← parseNat? id) (← hexToBytes h)))
   | ["wire.enc.usb", id, h] => do pure (bytesToHex (Wire.encodeUsb (← parseNat? id) (← hexToBytes h)))
   | ["wire.enc.yd", id, h] => do pure (bytesToHex (charsToBytes (Wire.encodeYd (← parseNat? id) (← hexToBytes h))))
